@@ -3,7 +3,7 @@
 
 char *vf_exc_obj; char *vf_exc_type; char *vf_caught[8]; int vf_ncaught; int vf_terminated;
 #ifdef __CPROVER__
-u64 vf_log[512]; int vf_nlog;
+u64 vf_log[512]; int vf_nlog; u64 vf_sum;
 #endif
 #ifndef __CPROVER__
 int vf_chk_failed; const char *vf_chk_msg;
